@@ -15,7 +15,7 @@ def struct1(name, v):
 
 def kernels(ctx):
     P = ctx.prog('core')
-    dtf = lambda n: P.find_one(r'<impl at [^>]*datetime\.rs[^>]*>::' + n + '$', 'extensions/datetime.rs')
+    dtf = lambda n, a0=r'^extensions::datetime::(DateTime|Duration)$': P.method('extensions/datetime.rs', n, arg0=a0)
     dec = lambda o_ex: None
     K = []
 
@@ -81,7 +81,7 @@ def kernels(ctx):
             if tag != 'val':
                 return False
             return vals[0] == tdiv(ins['ms'], div)
-        K.append(Kernel(f'Duration::{meth}', dtf(meth) if meth != 'to_seconds' else P.find_one(r'<impl at [^>]*datetime\.rs:4\d\d[^>]*>::to_seconds$'),
+        K.append(Kernel(f'Duration::{meth}', dtf(meth, r'^extensions::datetime::Duration$'),
                         [('ms', 'i64')], lambda ex, i: [struct1('Duration', i['ms'])], opt_i64, spec_q,
                         native=lambda nat, c, cedar=cedar: _as_val(eval_long(nat, f'{dur(c["ms"])}.{cedar}()')), expect_tags=('val',),
                         samples=[(I64_MIN,), (I64_MAX,), (-div,), (-div - 1,), (-div + 1,), (div,), (div - 1,), (-1,), (0,), (1,)]))
